@@ -711,3 +711,21 @@ def cancel_command_witness(ctx):
     if out["raised"] not in ("Abort",):
         diffs.append(f"a backend that cannot cancel at all: the command ends with {out['raised']}, expected click.Abort")
     return n, diffs, None
+
+
+
+def anchored_norm(value, wd, rel):
+    """Is `value` the anchored, normalised form of join(wd, rel)?  abspath() both anchors and normalises; normpath() only normalises,
+    so a result that never went through abspath is only acceptable when nothing relative is left (wd is a token that may be relative)."""
+    import posixpath
+    if not isinstance(value, str):
+        return False
+    has_abs = "⟦abs:" in value
+    plain = value.replace("⟦abs:", "").replace("⟦norm:", "")
+    depth = value.count("⟦abs:") + value.count("⟦norm:")
+    for _ in range(depth):
+        if plain.endswith("⟧"):
+            plain = plain[:-1]
+    want = wd + "/" + rel
+    same = posixpath.normpath(plain.replace(wd, "/WD")) == posixpath.normpath(want.replace(wd, "/WD"))
+    return has_abs and same
